@@ -20,10 +20,10 @@ VARIABLES scratch,   \* per function object: number of fills traced so far (diag
           hist       \* all calls so far (generator)
 vars == <<scratch, out, call, hist>>
 
-\* sequences of 1..MaxFuncs pairwise distinct function objects
+\* sequences of 1..MaxFuncs function objects; the same object may appear more than once in a list
 RECURSIVE Lists(_)
 Lists(k) == IF k = 0 THEN {<<>>} ELSE {Append(l, f) : l \in Lists(k - 1), f \in Funcs}
-FuncLists == {l \in UNION {Lists(k) : k \in 1..MaxFuncs} : \A a, b \in DOMAIN l : a # b => l[a] # l[b]}
+FuncLists == UNION {Lists(k) : k \in 1..MaxFuncs}
 
 Init == scratch = [f \in Funcs |-> 0] /\ out = <<>> /\ call = [c |-> 0, fs |-> <<>>] /\ hist = <<>>
 
